@@ -20,3 +20,4 @@ func TestC07(t *testing.T)     { RunProp(t, propC07) }
 func TestC07Sub(t *testing.T)  { RunProp(t, propC07Sub) }
 func TestC08(t *testing.T)     { RunProp(t, propC08) }
 func TestC08Sub(t *testing.T)  { RunProp(t, propC08Sub) }
+func TestC09RT(t *testing.T)   { RunProp(t, propC09RT) }
